@@ -634,10 +634,11 @@ func shapes(n int) [][]Node {
 					nd.Kind, nd.Content, nd.Exec = "f", BStr("#!"+name), true
 				case "l":
 					nd.Kind = "l"
+					// targets are kept exactly as written: none of these is in normal form
 					if i > 0 {
-						nd.Target = ns[i-1].Name
+						nd.Target = "./" + ns[i-1].Name
 					} else {
-						nd.Target = "../dangling"
+						nd.Target = "../dangling/./x//y"
 					}
 				case "d":
 					nd.Kind = "d"
